@@ -155,6 +155,8 @@ impl RecomputeHeap {
         debug_assert!(node.height() > node.height_in_recompute_heap().get());
         debug_assert!(node.is_in_recompute_heap());
         debug_assert!(node.height() <= self.max_height_allowed());
+        #[cfg(cormacrelf_incremental_rs_verif)]
+        crate::verif::probe(crate::verif::Probe::IncreaseHeightOfQueuedNode);
         self.unlink(node);
         self.link(node.clone()); // sets height_in_recompute_heap <- height
     }
